@@ -642,36 +642,33 @@ def _dedup_switch(ctx):
 
 
 CLI_TABLE = {
-    # formal of assign_confidence : expected actual in mokapot.main
-    "decoys": "config.keep_decoys",
-    "deduplication": "not config.skip_deduplication",
-    "do_rollup": "not config.skip_rollup",
-    "peps_error": "config.peps_error",
-    "peps_algorithm": "config.peps_algorithm",
-    "qvalue_algorithm": "config.qvalue_algorithm",
-    "eval_fdr": "config.test_fdr",
-    "sqlite_path": "config.sqlite_db_path",
-    "max_workers": "config.max_workers",
-    "dest_dir": "config.dest_dir",
+    # formal of assign_confidence : option (('not', option) when negated)
+    "decoys": "keep_decoys",
+    "deduplication": ("not", "skip_deduplication"),
+    "do_rollup": ("not", "skip_rollup"),
+    "peps_error": "peps_error",
+    "peps_algorithm": "peps_algorithm",
+    "qvalue_algorithm": "qvalue_algorithm",
+    "eval_fdr": "test_fdr",
+    "sqlite_path": "sqlite_db_path",
+    "max_workers": "max_workers",
+    "dest_dir": "dest_dir",
 }
 
 
 def _cli_mapping(ctx):
     prog = ctx.prog
     m = prog.func("mokapot.mokapot.main")
+    from .common import cli_routing
+    cli_routing(ctx, "C03c-cli-option-routing", AC, CLI_TABLE,
+                "the confidence assignment (an option that is parsed but not "
+                "passed on, or passed with the wrong polarity, silently "
+                "changes what is kept)")
     calls = [n for n in ast.walk(m.node) if isinstance(n, ast.Call)
-             and ast.unparse(n.func) == "assign_confidence"]
+             and prog.resolve_call(m, m.module, n)[1] == [AC]]
     ctx.require(len(calls) == 1, f"{m.qual}: assign_confidence call not "
                 "found")
     b = prog.bind(prog.func(AC), calls[0])
-    for formal, want in CLI_TABLE.items():
-        got = ast.unparse(b[formal]) if formal in b else None
-        ctx.check(got == want, "C03c-cli-option-routing", m,
-                  f"assign_confidence({formal}=...) <- {want}",
-                  f"the command line passes {formal}={got}; expected "
-                  f"{want} (an option that is parsed but not passed on, or "
-                  "passed with the wrong polarity, silently changes what is "
-                  "kept)", node=calls[0])
     # scores / descs come from brew, in the order brew returns them
     du = DefUse(prog, m)
     T = Terms(du)
